@@ -296,3 +296,23 @@ PROPS["C19"] = {
     "level_text": "seeded grammar mutation of whole requests x configuration swarm x all session sources; panic monitor on all traffic of all runs",
     "assumptions": COMMON_ASSUMPTIONS + ["not coverage-guided; what http.ReadRequest refuses never reaches a handler in production either"],
 }
+
+PROPS["C20"] = {
+    "level": "exploration",
+    "quick_runs": 400, "quick_budget_s": 150, "thorough_budget_s": 600,
+    "passes": [{"variant": "modeA", "instrumented": True, "quick_runs": 1200}, {"race": True, "variant": "race", "quick_runs": 160, "workers": 8}],
+    "race_files": ("htpasswd.go", "/validator.go"),
+    "rule": "MODE A (instrumented binary): a go/ast pass inserts a yield before every statement of loadHTPasswdFile / Validate / createHtpasswdMap / GetUsers / NewUserMap / IsValid / "
+            "LoadAuthenticatedEmailsFile into copies generated from the current working-tree files (overlay) and rewrites Lock()/RLock() into cooperative acquires; 2-5 rounds of 1-2 reloads "
+            "+ 2-4 validations whose statements are interleaved by the tape (exactly one task runs, the others are parked on channels: the schedule is a pure function of the tape, replayable "
+            "and shrinkable); all-waiting = deadlock; histories stamped with scheduler event numbers and checked with porcupine. MODE B: "
+            "the REAL NewHTPasswdValidator and NewValidator/UserMap, constructed through the SimWatcher hook so that the reload closures are the shipped ones, over real files; "
+            "file versions: entries added / removed, password changed, a malformed version; one run = 3-8 WAVES of 2-8 (thorough 2-16) validations + 0-2 reloads released together to run "
+            "truly in parallel and separated by barriers (the release orders scheduler -> task only, so conflicting accesses inside a wave are unordered for the race detector whatever "
+            "the physical interleaving); pass 1: plain binary, every history checked with porcupine against 'state = current version; reload(v) sets it iff v parses; validate answers "
+            "from the state'; pass 2: the same under the race detector (-race binary, GORACE log_path), any report mentioning htpasswd.go / validator.go is the violation; "
+            "non-trivial = at least one reload ran inside a wave; distinct = distinct wave structure + event hash",
+    "level_text": "seeded parallel waves (race detector) + linearizability of every recorded history against a sequential model of the credential file",
+    "assumptions": COMMON_ASSUMPTIONS + ["race-detector reports carry the seed and the two stacks instead of an exact schedule; the verdict is a function of the wave structure, not of timing",
+                                          "reloads of one file are serialised by the harness (a file has one content at a time); filterEvent / WaitForReplacement (fsnotify event filtering) are outside the simulated world"],
+}
